@@ -163,6 +163,20 @@ func (h *Host) Instantiate(ctx context.Context, rt wazero.Runtime, m *wasmgen.Mo
 				}
 				stack[0] = uint64(res)
 			})
+		case "closer":
+			fn = api.GoModuleFunc(func(ctx context.Context, mod api.Module, stack []uint64) {
+				arg := uint32(stack[0])
+				h.log(h.state(mod), fmt.Sprintf("closer(%d)", arg))
+				if h.Global != nil {
+					h.Global.Calls = append(h.Global.Calls, fmt.Sprintf("closer(%x,)->0,", arg))
+				}
+				if arg&7 == 0 {
+					// closes the calling module and returns normally: the guest keeps running until it
+					// reaches a termination check (close-on-context-done runtimes) or returns
+					_ = mod.CloseWithExitCode(ctx, 7)
+				}
+				stack[0] = 0
+			})
 		case "callback":
 			fn = api.GoModuleFunc(func(ctx context.Context, mod api.Module, stack []uint64) {
 				arg := uint32(stack[0])
